@@ -328,13 +328,21 @@ func (fc *FnCtx) binop(op token.Token, a, b Val, st *State, pos token.Pos) Val {
 		if st != nil {
 			fc.assert(st, not(app("=", b.T, "0")), "div0", "divisor is non-zero", pos)
 		}
-		t = app("go.div", a.T, b.T)
+		if uns {
+			t = app("div", a.T, b.T) // operands are non-negative: Euclidean = truncating
+		} else {
+			t = app("go.div", a.T, b.T)
+		}
 	case token.REM:
 		fc.goDivDecl()
 		if st != nil {
 			fc.assert(st, not(app("=", b.T, "0")), "div0", "divisor is non-zero", pos)
 		}
-		t = app("go.rem", a.T, b.T)
+		if uns {
+			t = app("mod", a.T, b.T)
+		} else {
+			t = app("go.rem", a.T, b.T)
+		}
 	default:
 		fc.fail(pos, "bitwise operator %s in `arith int` mode (outside subset)", op)
 	}
